@@ -41,8 +41,11 @@ def main() -> int:
             from usa.selftest.run import run_all
 
             res = run_all(only={prop})
+            stale = [r for r in res if r[1] == "STALE"]
+            res = [r for r in res if r[1] != "STALE"]
             bad = [r for r in res if r[1] != "ok"]
             report.note("selftest_variants", len(res))
+            report.note("selftest_stale_skipped", [r[0] for r in stale])  # edit anchor no longer present in the tree
             report.note("selftest_failures", [f"{r[0]}: {r[1]} {r[2]}" for r in bad])
             for r in res:
                 report.add("S-selftest", f"selftest::{r[0]}", True if r[1] == "ok" else None, ("checker self-validation variant behaves as expected" if r[1] == "ok" else f"checker self-validation failed ({r[1]}): {r[2]}"), r[1], "ok", nontrivial=False)
